@@ -6,6 +6,95 @@ namespace Nstd.Buffer
 
 theorem match_bytesOf (d : List Nat) : Match (bytesOf d) (bytesOf d) := Match.rfl _
 
+/-- `LStep` when nothing happens to the ledger -/
+theorem LStep.refl {o : Option Nat} {L : Ledger} (hl : ∀ i, o = some i → i ∈ L.live) : LStep o o L L :=
+  ⟨fun i => ⟨fun hi' => by
+      by_cases hh : o = some i
+      · exact Or.inl hh
+      · exact Or.inr ⟨hi', hh⟩, fun hi' => by
+      rcases hi' with hh | hh
+      · exact hl i hh
+      · exact hh.1⟩, Or.inl rfl, Nat.le_refl _⟩
+
+theorem swap_ok {st : State} {qs : List Spec.Queue} {v w : Nat} (hi : Inv st) (hr : Rel qs st)
+    (hw : v < st.bufs.length ∧ w < st.bufs.length) :
+    Ok (step st (.swap v w)) (Post st (Spec.step st.regs qs (.swap v w))) := by
+  obtain ⟨hv, hw⟩ := hw
+  have hbv : st.bufs[v]? = some st.bufs[v] := List.getElem?_eq_getElem hv
+  have hbw : st.bufs[w]? = some st.bufs[w] := List.getElem?_eq_getElem hw
+  obtain ⟨ra1, ra2, ra3⟩ := rehome_ok (owner := w) (hi.1 v _ hbv)
+  obtain ⟨rb1, rb2, rb3⟩ := rehome_ok (owner := v) (hi.1 w _ hbw)
+  refine ⟨{ st with bufs := (st.bufs.set v (st.bufs[w].rehome v w)).set w (st.bufs[v].rehome w v) }, ?_, ?_⟩
+  · simp [step, State.getBuf, hbv, hbw]
+  · -- the buffers after the swap, pointwise
+    have hget : ∀ u : Nat, ((st.bufs.set v (st.bufs[w].rehome v w)).set w (st.bufs[v].rehome w v))[u]? =
+        if w = u then some (st.bufs[v].rehome w v) else if v = u then some (st.bufs[w].rehome v w) else st.bufs[u]? := by
+      intro u
+      rw [List.getElem?_set, List.getElem?_set]
+      by_cases h1 : w = u
+      · subst h1; simp [hw]
+      · by_cases h2 : v = u
+        · subst h2; simp [h1, hv]
+        · simp [h1, h2]
+    refine ⟨⟨?_, ?_⟩, ⟨?_, ?_⟩, rfl, by simp⟩
+    · intro u b hu
+      rw [hget] at hu
+      by_cases h1 : w = u
+      · subst h1; simp at hu; subst hu; exact ra1
+      · by_cases h2 : v = u
+        · subst h2; simp [h1] at hu; subst hu; exact rb1
+        · simp [h1, h2] at hu; exact hi.1 u b hu
+    · -- ledger invariant: the two blocks change hands
+      have hown : ∀ (u : Nat) (b : Buf), ((st.bufs.set v (st.bufs[w].rehome v w)).set w (st.bufs[v].rehome w v))[u]? = some b →
+          ∃ u' b0, st.bufs[u']? = some b0 ∧ b.ownId = b0.ownId ∧
+            (u' = if w = u then v else if v = u then w else u) := by
+        intro u b hu
+        rw [hget] at hu
+        by_cases h1 : w = u
+        · subst h1; simp at hu; subst hu; exact ⟨v, _, hbv, ra3, by simp⟩
+        · by_cases h2 : v = u
+          · subst h2; simp [h1] at hu; subst hu; exact ⟨w, _, hbw, rb3, by simp [h1]⟩
+          · simp [h1, h2] at hu; exact ⟨u, b, hu, rfl, by simp [h1, h2]⟩
+      constructor
+      · intro u b id hu hid
+        obtain ⟨u', b0, h0, he, _⟩ := hown u b hu
+        exact hi.2.live_of_owned u' b0 id h0 (he ▸ hid)
+      · intro id hid
+        obtain ⟨u, b, hu, hb⟩ := hi.2.owned_of_live id hid
+        by_cases h1 : u = v
+        · subst h1
+          rw [hbv] at hu; cases hu
+          exact ⟨w, _, by rw [hget]; simp, ra3.trans hb⟩
+        · by_cases h2 : u = w
+          · subst h2
+            rw [hbw] at hu; cases hu
+            refine ⟨v, _, ?_, rb3.trans hb⟩
+            rw [hget]
+            simp [h1]
+          · refine ⟨u, b, ?_, hb⟩
+            rw [hget]
+            simp [Ne.symm h1, Ne.symm h2, hu]
+      · intro u1 u2 b1 b2 id h1 h2 hb1 hb2
+        obtain ⟨x1, c1, hc1, he1, hx1⟩ := hown u1 b1 h1
+        obtain ⟨x2, c2, hc2, he2, hx2⟩ := hown u2 b2 h2
+        have hx := hi.2.excl x1 x2 c1 c2 id hc1 hc2 (he1 ▸ hb1) (he2 ▸ hb2)
+        rw [hx1, hx2] at hx
+        by_cases a1 : w = u1 <;> by_cases a2 : w = u2 <;> by_cases a3 : v = u1 <;> by_cases a4 : v = u2 <;>
+          simp [a1, a2, a3, a4] at hx <;> omega
+      · exact hi.2.bounded
+    · simp [Spec.step, hr.1]
+    · intro u b hu
+      rw [hget] at hu
+      simp only [Spec.step]
+      have hv' : v < qs.length := hr.1 ▸ hv
+      have hw' : w < (qs.set v (Spec.get qs w)).length := by simp [hr.1 ▸ hw]
+      rw [get_set _ _ _ _ hw', get_set _ _ _ _ hv']
+      by_cases h1 : w = u
+      · subst h1; simp at hu; subst hu; simp only [if_true]; rw [ra2]; exact hr.2 v _ hbv
+      · by_cases h2 : v = u
+        · subst h2; simp [h1] at hu; subst hu; simp only [h1, if_false, if_true]; rw [rb2]; exact hr.2 w _ hbw
+        · simp [h1, h2] at hu; simp only [h1, h2, if_false]; exact hr.2 u b hu
+
 /-- every well-formed operation succeeds from a state satisfying the invariant, re-establishes
     the invariant, simulates the specification step, and leaves regions/variable count alone -/
 theorem step_ok {st : State} {qs : List Spec.Queue} (hi : Inv st) (hr : Rel qs st) (op : Op)
@@ -13,32 +102,33 @@ theorem step_ok {st : State} {qs : List Spec.Queue} (hi : Inv st) (hr : Rel qs s
     Ok (step st op) (Post st (Spec.step st.regs qs op)) := by
   cases op with
   | ctorDefault v =>
-    exact upd_ok (fun _ => []) hi hr hw (fun _ _ _ _ => (ok_some _ _).2
-      ⟨(default_ok v).1, (default_ok v).2 ▸ Match.nil⟩)
+    exact upd_ok (fun _ => []) hi hr hw (fun b _ hl hbd _ _ => (free_ok (v := v) hl hbd).mono
+      (fun _ _ h => ⟨h.1, h.2.1, h.2.2 ▸ Match.nil⟩))
   | ctorCap v n =>
-    exact upd_ok (fun _ => []) hi hr hw (fun _ _ _ _ => (ctorCap_ok v n).mono
-      (fun _ h => ⟨h.1, h.2 ▸ Match.nil⟩))
+    exact upd_ok (fun _ => []) hi hr hw (fun b _ hl hbd _ _ => (ctorCap_ok v n hl hbd).mono
+      (fun _ _ h => ⟨h.1, h.2.1, h.2.2 ▸ Match.nil⟩))
   | ctorData v d =>
-    exact upd_ok (fun _ => bytesOf d) hi hr hw (fun _ _ _ _ => (ctorData_ok v (bytesOf d)).mono
-      (fun _ h => ⟨h.1, h.2 ▸ Match.rfl _⟩))
+    exact upd_ok (fun _ => bytesOf d) hi hr hw (fun b _ hl hbd _ _ => (ctorData_ok v (bytesOf d) hl hbd).mono
+      (fun _ _ h => ⟨h.1, h.2.1, h.2.2 ▸ Match.rfl _⟩))
   | ctorCopy v w =>
     obtain ⟨hv, hw⟩ := hw
     simp only [step, Spec.step]
     by_cases h : v = w
     · subst h
       simp only [if_true]
-      exact upd_ok (fun sp => sp) hi hr hv (fun b hb sp hm => (ok_some _ _).2 ⟨hb, hm⟩)
+      exact upd_ok (fun sp => sp) hi hr hv (fun b hb hl hbd sp hm => (okM_pure _ _ _).2
+        ⟨LStep.refl hl, hb, hm⟩)
     · simp only [h, if_false]
-      exact updFrom_ok (fun _ spd => spd) hi hr hv hw (fun _ _ _ spd d _ hd => (ctorData_ok v d).mono
-        (fun _ h => ⟨h.1, h.2 ▸ hd⟩))
+      exact updFrom_ok (fun _ spd => spd) hi hr hv hw (fun b _ hl hbd _ spd d _ hd => (ctorData_ok v d hl hbd).mono
+        (fun _ _ h => ⟨h.1, h.2.1, h.2.2 ▸ hd⟩))
   | attach v r off len =>
     obtain ⟨hv, region, hreg, hlen⟩ := hw
     have hrd : rdList region off len = some ((region.drop off).take len) := by simp [rdList, hlen]
     have hsp : Spec.range st.regs r off len = (region.drop off).take len := by
       simp [Spec.range, List.getD_eq_getElem?_getD, hreg]
-    have := upd_ok (f := fun _ => some (Buf.attach ((region.drop off).take len)))
-      (fun _ => (region.drop off).take len) hi hr hv (fun _ _ _ _ => (ok_some _ _).2
-        ⟨(attach_ok v _).1, (attach_ok v _).2 ▸ Match.rfl _⟩)
+    have := upd_ok (f := fun b => b.attach ((region.drop off).take len))
+      (fun _ => (region.drop off).take len) hi hr hv (fun b _ hl hbd _ _ => (attach_ok v _ hl hbd).mono
+        (fun _ _ h => ⟨h.1, h.2.1, h.2.2 ▸ Match.rfl _⟩))
     simpa [step, Spec.step, hreg, hrd, hsp] using this
   | assignBuf v w =>
     obtain ⟨hv, hw⟩ := hw
@@ -46,57 +136,57 @@ theorem step_ok {st : State} {qs : List Spec.Queue} (hi : Inv st) (hr : Rel qs s
     by_cases h : v = w
     · subst h
       simp only [if_true]
-      exact upd_ok (fun sp => sp) hi hr hv (fun b hb sp hm => (assignSelf_ok hb).mono
-        (fun _ h => ⟨h.1, h.2 ▸ hm⟩))
+      exact upd_ok (fun sp => sp) hi hr hv (fun b hb hl hbd sp hm => (assignSelf_ok hb hl hbd).mono
+        (fun _ _ h => ⟨h.1, h.2.1, h.2.2 ▸ hm⟩))
     · simp only [h, if_false]
-      exact updFrom_ok (fun _ spd => spd) hi hr hv hw (fun b hb _ spd d _ hd => (assign_ok hb d).mono
-        (fun _ h => ⟨h.1, h.2 ▸ hd⟩))
+      exact updFrom_ok (fun _ spd => spd) hi hr hv hw (fun b hb hl hbd _ spd d _ hd => (assign_ok hb hl hbd d).mono
+        (fun _ _ h => ⟨h.1, h.2.1, h.2.2 ▸ hd⟩))
   | assignData v d =>
-    exact upd_ok (fun _ => bytesOf d) hi hr hw (fun b hb _ _ => (assign_ok hb (bytesOf d)).mono
-      (fun _ h => ⟨h.1, h.2 ▸ Match.rfl _⟩))
+    exact upd_ok (fun _ => bytesOf d) hi hr hw (fun b hb hl hbd _ _ => (assign_ok hb hl hbd (bytesOf d)).mono
+      (fun _ _ h => ⟨h.1, h.2.1, h.2.2 ▸ Match.rfl _⟩))
   | prependData v d =>
-    exact upd_ok (fun sp => bytesOf d ++ sp) hi hr hw (fun b hb sp hm => (prepend_ok hb (bytesOf d)).mono
-      (fun _ h => ⟨h.1, h.2 ▸ (Match.rfl _).append hm⟩))
+    exact upd_ok (fun sp => bytesOf d ++ sp) hi hr hw (fun b hb hl hbd sp hm => (prepend_ok hb hl hbd (bytesOf d)).mono
+      (fun _ _ h => ⟨h.1, h.2.1, h.2.2 ▸ (Match.rfl _).append hm⟩))
   | prependBuf v w =>
     obtain ⟨hv, hw⟩ := hw
     simp only [step, Spec.step]
     by_cases h : v = w
     · subst h
       simp only [if_true]
-      exact upd_ok (fun sp => sp ++ sp) hi hr hv (fun b hb sp hm => (prependSelf_ok hb).mono
-        (fun _ h => ⟨h.1, h.2 ▸ hm.append hm⟩))
+      exact upd_ok (fun sp => sp ++ sp) hi hr hv (fun b hb hl hbd sp hm => (prependSelf_ok hb hl hbd).mono
+        (fun _ _ h => ⟨h.1, h.2.1, h.2.2 ▸ hm.append hm⟩))
     · simp only [h, if_false]
-      exact updFrom_ok (fun sp spd => spd ++ sp) hi hr hv hw (fun b hb sp spd d hm hd => (prepend_ok hb d).mono
-        (fun _ h => ⟨h.1, h.2 ▸ hd.append hm⟩))
+      exact updFrom_ok (fun sp spd => spd ++ sp) hi hr hv hw (fun b hb hl hbd sp spd d hm hd => (prepend_ok hb hl hbd d).mono
+        (fun _ _ h => ⟨h.1, h.2.1, h.2.2 ▸ hd.append hm⟩))
   | prependSub v off len =>
-    exact upd_ok (fun sp => (sp.drop off).take len ++ sp) hi hr hw (fun b hb sp hm =>
-      (prependSubClamped_ok hb off len).mono (fun _ h => ⟨h.1, h.2 ▸ ((hm.drop off).take len).append hm⟩))
+    exact upd_ok (fun sp => (sp.drop off).take len ++ sp) hi hr hw (fun b hb hl hbd sp hm =>
+      (prependSubClamped_ok hb hl hbd off len).mono (fun _ _ h => ⟨h.1, h.2.1, h.2.2 ▸ ((hm.drop off).take len).append hm⟩))
   | appendData v d =>
-    exact upd_ok (fun sp => sp ++ bytesOf d) hi hr hw (fun b hb sp hm => (append_ok hb (bytesOf d)).mono
-      (fun _ h => ⟨h.1, h.2 ▸ hm.append (Match.rfl _)⟩))
+    exact upd_ok (fun sp => sp ++ bytesOf d) hi hr hw (fun b hb hl hbd sp hm => (append_ok hb hl hbd (bytesOf d)).mono
+      (fun _ _ h => ⟨h.1, h.2.1, h.2.2 ▸ hm.append (Match.rfl _)⟩))
   | appendBuf v w =>
     obtain ⟨hv, hw⟩ := hw
     simp only [step, Spec.step]
     by_cases h : v = w
     · subst h
       simp only [if_true]
-      exact upd_ok (fun sp => sp ++ sp) hi hr hv (fun b hb sp hm => (appendSelf_ok hb).mono
-        (fun _ h => ⟨h.1, h.2 ▸ hm.append hm⟩))
+      exact upd_ok (fun sp => sp ++ sp) hi hr hv (fun b hb hl hbd sp hm => (appendSelf_ok hb hl hbd).mono
+        (fun _ _ h => ⟨h.1, h.2.1, h.2.2 ▸ hm.append hm⟩))
     · simp only [h, if_false]
-      exact updFrom_ok (fun sp spd => sp ++ spd) hi hr hv hw (fun b hb sp spd d hm hd => (append_ok hb d).mono
-        (fun _ h => ⟨h.1, h.2 ▸ hm.append hd⟩))
+      exact updFrom_ok (fun sp spd => sp ++ spd) hi hr hv hw (fun b hb hl hbd sp spd d hm hd => (append_ok hb hl hbd d).mono
+        (fun _ _ h => ⟨h.1, h.2.1, h.2.2 ▸ hm.append hd⟩))
   | resize v n =>
-    exact upd_ok (fun sp => Spec.resize sp n) hi hr hw (fun b hb sp hm => (resize_ok hb n).mono
-      (fun _ h => ⟨h.1, hm.resize n h.2.1 h.2.2⟩))
+    exact upd_ok (fun sp => Spec.resize sp n) hi hr hw (fun b hb hl hbd sp hm => (resize_ok hb hl hbd n).mono
+      (fun _ _ h => ⟨h.1, h.2.1, hm.resize n h.2.2.1 h.2.2.2⟩))
   | removeFront v n =>
-    exact upd_ok (fun sp => Spec.removeFront sp n) hi hr hw (fun b hb sp hm => (removeFront_ok hb n).mono
-      (fun _ h => ⟨h.1, h.2 ▸ hm.drop n⟩))
+    exact upd_ok (fun sp => Spec.removeFront sp n) hi hr hw (fun b hb hl hbd sp hm => (removeFront_ok hb hl hbd n).mono
+      (fun _ _ h => ⟨h.1, h.2.1, h.2.2 ▸ hm.drop n⟩))
   | removeBack v n =>
-    exact upd_ok (fun sp => Spec.removeBack sp n) hi hr hw (fun b hb sp hm => (removeBack_ok hb n).mono
-      (fun _ h => ⟨h.1, by rw [h.2, ← hm.length]; exact hm.take _⟩))
+    exact upd_ok (fun sp => Spec.removeBack sp n) hi hr hw (fun b hb hl hbd sp hm => (removeBack_ok hb hl hbd n).mono
+      (fun _ _ h => ⟨h.1, h.2.1, by rw [h.2.2, ← hm.length]; exact hm.take _⟩))
   | reserve v n =>
-    have := upd_ok (fun sp => sp) hi hr hw (fun b hb sp hm => (reserve_ok hb n).mono
-      (fun _ h => ⟨h.1, h.2 ▸ hm⟩))
+    have := upd_ok (fun sp => sp) hi hr hw (fun b hb hl hbd sp hm => (reserve_ok hb hl hbd n).mono
+      (fun _ _ h => ⟨h.1, h.2.1, h.2.2 ▸ hm⟩))
     have hs : qs.set v (Spec.get qs v) = qs := by
       apply List.ext_getElem?
       intro i
@@ -109,22 +199,12 @@ theorem step_ok {st : State} {qs : List Spec.Queue} (hi : Inv st) (hr : Rel qs s
     rw [hs] at this
     exact this
   | clear v =>
-    exact upd_ok (fun _ => []) hi hr hw (fun b hb _ _ => (clear_ok hb).mono
-      (fun _ h => ⟨h.1, h.2 ▸ Match.nil⟩))
-  | swap v w =>
-    obtain ⟨hv, hw⟩ := hw
-    have hbv : st.bufs[v]? = some st.bufs[v] := List.getElem?_eq_getElem hv
-    have hbw : st.bufs[w]? = some st.bufs[w] := List.getElem?_eq_getElem hw
-    have h1 := setBuf_post (sp' := Spec.get qs w) hi hr hv (rehome_ok (owner := v) (hi w _ hbw)).1
-      ((rehome_ok (owner := v) (hi w _ hbw)).2 ▸ hr.2 w _ hbw)
-    have hw' : w < (st.setBuf v (st.bufs[w].rehome v w)).bufs.length := by rw [h1.2.2.2]; exact hw
-    have h2 := setBuf_post (sp' := Spec.get qs v) h1.1 h1.2.1 hw' (rehome_ok (owner := w) (hi v _ hbv)).1
-      ((rehome_ok (owner := w) (hi v _ hbv)).2 ▸ hr.2 v _ hbv)
-    refine ⟨_, ?_, h1.trans h2⟩
-    simp [step, State.getBuf, hbv, hbw]
+    exact upd_ok (fun _ => []) hi hr hw (fun b hb hl hbd _ _ => (clear_ok hb hl hbd).mono
+      (fun _ _ h => ⟨h.1, h.2.1, h.2.2 ▸ Match.nil⟩))
+  | swap v w => exact swap_ok hi hr hw
   | free v =>
-    exact upd_ok (fun _ => []) hi hr hw (fun _ _ _ _ => (ok_some _ _).2
-      ⟨(default_ok v).1, (default_ok v).2 ▸ Match.nil⟩)
+    exact upd_ok (fun _ => []) hi hr hw (fun b _ hl hbd _ _ => (free_ok (v := v) hl hbd).mono
+      (fun _ _ h => ⟨h.1, h.2.1, h.2.2 ▸ Match.nil⟩))
 
 /-- an operation that succeeds was well-formed (the model rejects everything else) -/
 theorem step_wf {st st' : State} {op : Op} (h : step st op = some st') : WFOp st.bufs.length st.regs op := by
@@ -214,23 +294,36 @@ theorem run_post : ∀ (ops : List Op) {st st' : State} {qs : List Spec.Queue}, 
       have p2 := run_post ops p1.1 p1.2.1 h2
       exact p1.trans (p1.2.2.1 ▸ p2)
 
-theorem init_inv (nv : Nat) (regs : List (List Byte)) : Inv (init nv regs) := by
-  intro v b hb
+theorem init_bufs (nv : Nat) (regs : List (List Byte)) (v : Nat) (b : Buf)
+    (hb : (init nv regs).bufs[v]? = some b) : v < nv ∧ b = Buf.default v := by
   simp only [init, List.getElem?_map] at hb
   by_cases h : v < nv
   · simp [List.getElem?_range h] at hb
-    subst hb
-    exact (default_ok v).1
+    exact ⟨h, hb.symm⟩
   · simp [List.getElem?_eq_none (l := List.range nv) (by simpa using h)] at hb
+
+theorem init_inv (nv : Nat) (regs : List (List Byte)) : Inv (init nv regs) := by
+  refine ⟨fun v b hb => ?_, ⟨?_, ?_, ?_, ?_⟩⟩
+  · obtain ⟨_, rfl⟩ := init_bufs nv regs v b hb
+    exact (default_ok v).1
+  · intro v b id hb hid
+    obtain ⟨_, rfl⟩ := init_bufs nv regs v b hb
+    rw [(default_ok v).2.2] at hid
+    cases hid
+  · intro id hid
+    simp [init] at hid
+  · intro v w b b' id hb _ hid _
+    obtain ⟨_, rfl⟩ := init_bufs nv regs v b hb
+    rw [(default_ok v).2.2] at hid
+    cases hid
+  · intro i hi
+    simp [init] at hi
 
 theorem init_rel (nv : Nat) (regs : List (List Byte)) : Rel (Spec.init nv) (init nv regs) := by
   refine ⟨by simp [Spec.init, init], fun v b hb => ?_⟩
-  by_cases h : v < nv
-  · simp [init, List.getElem?_range h] at hb
-    subst hb
-    rw [(default_ok v).2]
-    simp [Spec.get, Spec.init, List.getD_eq_getElem?_getD, h]
-    exact Match.nil
-  · simp [init, List.getElem?_eq_none (l := List.range nv) (by simpa using h)] at hb
+  obtain ⟨h, rfl⟩ := init_bufs nv regs v b hb
+  rw [(default_ok v).2.1]
+  simp [Spec.get, Spec.init, List.getD_eq_getElem?_getD, h]
+  exact Match.nil
 
 end Nstd.Buffer
